@@ -335,6 +335,17 @@ class Exec:
             self.assign(s.target, self.eval(s.value, env, fr), env, fr)
 
     def st_AugAssign(self, s, env, fr):
+        if isinstance(s.target, ast.Subscript):
+            # base and index are evaluated once (python semantics; also keeps a mask index identical for load and store)
+            base = self.eval(s.target.value, env, fr)
+            idx = self.eval_index(s.target.slice, env, fr)
+            cur = self.load_subscript(base, idx, s.target, env, fr)
+            v = self.eval(s.value, env, fr)
+            op = BINOPS.get(type(s.op))
+            if op is None:
+                raise Unsupported(f"augmented operator {type(s.op).__name__}")
+            self.store_subscript(base, idx, self.binop(op, cur, v, s), s.target, env, fr)
+            return
         cur = self.eval(_as_load(s.target), env, fr)
         v = self.eval(s.value, env, fr)
         op = BINOPS.get(type(s.op))
@@ -934,6 +945,8 @@ class Exec:
             return self._arrm.masked_binop(self, a, b, fn, kind)
         if isinstance(a, Arr) or isinstance(b, Arr):
             arr = a if isinstance(a, Arr) else b
+            if isinstance(a, Arr) and isinstance(b, Arr) and self._needs_bcast(a, b):
+                return self._bcast2(a, b, fn, kind)
             if isinstance(a, Arr) and isinstance(b, Arr):
                 if a.rank != b.rank:
                     # broadcasting (n,m) op (m,) / (n,) op (n,1) are not needed by the verified functions
@@ -975,6 +988,47 @@ class Exec:
             r.ghost = _merge_ghost(a, b)
             return r
         return fn(a, b)
+
+    def _needs_bcast(self, a, b):
+        ra, rb = a.rank, b.rank
+        for k in range(1, min(ra, rb) + 1):
+            x, y = E._conc(a.shape[-k]), E._conc(b.shape[-k])
+            if (x == 1) != (y == 1):
+                return True
+        return False
+
+    def _bcast2(self, a, b, fn, kind):
+        """numpy broadcasting with length-1 axes (shapes aligned at the trailing dimension)"""
+        r = max(a.rank, b.rank)
+        sa = [1] * (r - a.rank) + list(a.shape)
+        sb = [1] * (r - b.rank) + list(b.shape)
+        shape = []
+        for x, y in zip(sa, sb):
+            cx, cy = E._conc(x), E._conc(y)
+            if cx == 1:
+                shape.append(y)
+            elif cy == 1:
+                shape.append(x)
+            else:
+                if cx is not None and cy is not None and cx != cy:
+                    raise PathRaise("ValueError")
+                if cx is None or cy is None:
+                    if not z3.eq(z3.simplify(to_z3(x, "int")), z3.simplify(to_z3(y, "int"))):
+                        self.oblige("broadcast", eq_val(x, y), f"operand shapes agree ({x} == {y})")
+                shape.append(x)
+        idx = [z3.Int(fresh_name("i")) for _ in shape]
+
+        def pick(arr, sh):
+            off = r - arr.rank
+            sel = []
+            for d in range(arr.rank):
+                sel.append(0 if E._conc(sh[off + d]) == 1 and E._conc(shape[off + d]) != 1 else idx[off + d])
+            return arr.sel(*sel)
+        body = fn(pick(a, sa), pick(b, sb))
+        k = kind or kind_of(body)
+        out = Arr(z3.Lambda(idx, to_z3(body, k)), shape, k)
+        out.ghost = _merge_ghost(a, b)
+        return out
 
     def _same_shape(self, a, b):
         for x, y in zip(a.shape, b.shape):
@@ -1197,10 +1251,34 @@ class Exec:
             p = idx.index(Ellipsis)
             fill = a.rank - (len(idx) - 1)
             idx = idx[:p] + [_SliceVal(None, None, None)] * fill + idx[p + 1:]
-        while len(idx) < a.rank:
+        if len(idx) == 1 and isinstance(idx[0], Arr) and idx[0].kind == "bool" and idx[0].rank == a.rank and a.rank > 1:
+            return self.models["__mask_select__"](self, [a, idx[0]], {}, n)
+        n_new = sum(1 for i in idx if i is None)
+        while len(idx) - n_new < a.rank:
             idx.append(_SliceVal(None, None, None))
-        if len(idx) > a.rank:
+        if len(idx) - n_new > a.rank:
             raise PathRaise("IndexError", n)
+        if n_new:
+            # a[..., None]: new axes of length 1 (a view); index the rest first, then re-wrap
+            rest = [i for i in idx if i is not None]
+            if any(not isinstance(i, _SliceVal) for i in rest):
+                raise Unsupported("newaxis combined with integer / array indices")
+            base = self.index_arr(a, rest, n, check) if any((i.lo, i.hi) != (None, None) for i in rest) else a
+            pos = []
+            k = 0
+            shape = []
+            for i in idx:
+                if i is None:
+                    shape.append(1)
+                    pos.append(None)
+                else:
+                    shape.append(base.shape[k])
+                    pos.append(k)
+                    k += 1
+            keep = [q for q, p_ in enumerate(pos) if p_ is not None]
+            r = Arr.from_lambda(shape, base.kind, lambda *o: base.sel(*[o[q] for q in keep]))
+            r.ghost = dict(base.ghost)
+            return r
         # boolean mask a[mask] / a[mask, 0] / a[..., mask]
         if any(isinstance(i, Arr) and i.kind == "bool" for i in idx):
             h = self.models.get("__mask_select__")
